@@ -202,6 +202,10 @@ impl Drop for SimStream {
 impl Read for SimStream {
     fn read(&mut self, buf: &mut [u8]) -> io::Result<usize> {
         simrt::yield_point("stream.read");
+        if simrt::poisoned() {
+            // tear-down after a hang / livelock verdict: every loop around the transport must end
+            return Err(io::Error::new(io::ErrorKind::ConnectionAborted, "simulation is being torn down"));
+        }
         let mut n = self.net.lock().unwrap();
         n.stats.reads += 1;
         if n.inbound.is_empty() {
@@ -233,6 +237,7 @@ impl Read for SimStream {
             *b = n.inbound.pop_front().unwrap();
         }
         n.read_total += k;
+        simrt::note_progress();
         simrt::trace("read", k as u64, n.read_total as u64);
         Ok(k)
     }
@@ -241,6 +246,9 @@ impl Read for SimStream {
 impl Write for SimStream {
     fn write(&mut self, buf: &[u8]) -> io::Result<usize> {
         simrt::yield_point("stream.write");
+        if simrt::poisoned() {
+            return Err(io::Error::new(io::ErrorKind::ConnectionAborted, "simulation is being torn down"));
+        }
         let mut n = self.net.lock().unwrap();
         if buf.is_empty() {
             return Ok(0);
@@ -292,6 +300,7 @@ impl Write for SimStream {
             return Err(io::Error::new(io::ErrorKind::WouldBlock, "would block"));
         }
         n.c2s.extend_from_slice(&buf[..take]);
+        simrt::note_progress();
         let stamp = simrt::stamp();
         let now = simrt::now_ns();
         n.writes.push(WriteRec { offset, len: take, stamp, time_ns: now });
